@@ -356,6 +356,11 @@ package statefulset
 // stalledScaleOut: every snapshot pod is settled (but for its revision) and some desired ordinal holds no pod (vacOrd: witness).
 // A reconcile in such a state issues a create (the no-stall half of convergence for scale-out / replacement of lost pods).
 //@ spec func vacOrd(ps []*v1.Pod) int
+// stalledScaleIn: every desired ordinal holds a settled pod, every other pod of the snapshot is healthy, and there is one
+// (condIdx: witness).  A reconcile in such a state issues a delete (the no-stall half of convergence for scale-in).
+//@ spec func condIdx(ps []*v1.Pod) int
+//@ spec func leavingP(s *apps.StatefulSet, p *v1.Pod) bool = ordOf(p) >= 0 && !desiredOf(s, ordOf(p)) && isCreatedS(p) && isHealthyS(p)
+//@ spec func stalledScaleIn(s *apps.StatefulSet, ps []*v1.Pod) bool = (forall k int :: {ps[k]} 0 <= k && k < len(ps) ==> settledButRev(s, ps[k]) || leavingP(s, ps[k])) && (forall o int32 :: {count(slotsAnn(ifaceOf(s, "*apps.StatefulSet")), 0, o)} desiredOf(s, o) ==> 0 <= occ(ps, o) && occ(ps, o) < len(ps) && ordOf(ps[occ(ps, o)]) == o) && s.DeletionTimestamp == nil && 0 <= condIdx(ps) && condIdx(ps) < len(ps) && leavingP(s, ps[condIdx(ps)])
 //@ spec func allSettled(s *apps.StatefulSet, ps []*v1.Pod) bool = forall k int :: {ps[k]} 0 <= k && k < len(ps) ==> settledButRev(s, ps[k])
 //@ spec func stalledUpdate(s *apps.StatefulSet, ps []*v1.Pod, upd string) bool = calmSnap(s, ps) && s.DeletionTimestamp == nil && 0 <= outdIdx(ps) && outdIdx(ps) < len(ps) && outdatedP(s, ps[outdIdx(ps)], upd)
 // occ(ps, o): index of the snapshot pod occupying ordinal o (a witness function: uninterpreted, constrained only inside finalSnap)
@@ -379,16 +384,19 @@ package statefulset
 //@   ghost var fin bool   -- the snapshot is a fixed point (C02): calm and no pod outdated
 //@   ghost var stu bool   -- calm, but a pod is outdated: the rolling update must take a step (C02)
 //@   ghost var sto bool   -- every pod settled, but a desired ordinal is vacant: the reconcile must create a pod (C02)
+//@   ghost var sti bool   -- desired ordinals all settled, some healthy pod outside the desired set: the reconcile must delete one (C02)
 //@   at entry: ghost calm = calmSnap(set, pods)
+//@   at entry: ghost sti = stalledScaleIn(set, pods)
+//@   at call getPodRevision#9 before: assert [C02] stuhere: stu && ordOf(pods[outdIdx(pods)]) == target ==> replicas[target] == pods[outdIdx(pods)]
 //@   at entry: ghost sto = allSettled(set, pods) && set.DeletionTimestamp == nil && 0 <= vacOrd(pods) && vacOrd(pods) <= MaxInt32 && desiredOf(set, vacOrd(pods)) && (forall k int :: {pods[k]} 0 <= k && k < len(pods) ==> ordOf(pods[k]) != vacOrd(pods))
 //@   at entry: ghost fin = calm && (forall k int :: {pods[k]} 0 <= k && k < len(pods) ==> !outdatedP(set, pods[k], updateRevision.Name))
 //@   at entry: ghost stu = calm && set.DeletionTimestamp == nil && 0 <= outdIdx(pods) && outdIdx(pods) < len(pods) && outdatedP(set, pods[outdIdx(pods)], updateRevision.Name)
-//@   at call identityMatches#1 before: assert [C02] finwitness: calm || sto ==> 0 <= sidx[replicas[i]] && sidx[replicas[i]] < len(pods) && pods[sidx[replicas[i]]] == replicas[i]
-//@   at call identityMatches#1 before: assert [C02] finid: calm || sto ==> idOK(set, replicas[i])
-//@   at call identityMatches#1 before: assert [C02] finvols: calm || sto ==> volsDistinct(replicas[i])
+//@   at call identityMatches#1 before: assert [C02] finwitness: calm || sto || sti ==> 0 <= sidx[replicas[i]] && sidx[replicas[i]] < len(pods) && pods[sidx[replicas[i]]] == replicas[i]
+//@   at call identityMatches#1 before: assert [C02] finid: calm || sto || sti ==> idOK(set, replicas[i])
+//@   at call identityMatches#1 before: assert [C02] finvols: calm || sto || sti ==> volsDistinct(replicas[i])
 //@   at call identityMatches#1 before: assert snapkept: forall k int :: {pods[k]} 0 <= k && k < len(pods) ==> pods[k].Spec.Volumes == old(pods[k].Spec.Volumes) && pods[k].Name == old(pods[k].Name)
 //@   at call identityMatches#1 before: assert setkept: set.Name == old(set.Name) && set.Spec.VolumeClaimTemplates == old(set.Spec.VolumeClaimTemplates)
-//@   at call identityMatches#1 before: assert [C02] finstorage: calm || sto ==> ordOf(replicas[i]) >= 0 && podStorage(set, replicas[i], ordOf(replicas[i]))
+//@   at call identityMatches#1 before: assert [C02] finstorage: calm || sto || sti ==> ordOf(replicas[i]) >= 0 && podStorage(set, replicas[i], ordOf(replicas[i]))
 //@   at call ApplyRevision#1 before: ghost gTmplLo = allocMark()
 //@   at call ApplyRevision#2 after: ghost gTmplHi = allocMark()
 //@   at call newVersionedStatefulSetPod#2 after: assert [C12] censusafternew: forall k int :: {pods[k]} {rdyI[k]} {curI[k]} {updI[k]} 0 <= k && k < len(pods) ==> (rdyI[k] <==> isRunningAndReadyS(pods[k])) && (curI[k] <==> (isCreatedS(pods[k]) && !isTerminatingS(pods[k]) && revOf(pods[k]) == gCurRev)) && (updI[k] <==> (isCreatedS(pods[k]) && !isTerminatingS(pods[k]) && revOf(pods[k]) == gUpdRev))
@@ -442,6 +450,7 @@ package statefulset
 //@   profile defaulted ensures [C02] quiet: fin ==> gNact == 0 && gPodTouch == old(gPodTouch) && gWrites == old(gWrites)
 //@   profile defaulted ensures [C02] nostallupdate: stu ==> gNact >= 1 || err != nil
 //@   profile defaulted ensures [C02] nostallscaleout: sto ==> gNact >= 1 || err != nil
+//@   profile defaulted ensures [C02] nostallscalein: sti ==> gNact >= 1 || err != nil
 //@   profile defaulted ensures [C02] fixedstatus: fin && err == nil ==> statusp.Replicas == len(pods) && statusp.ReadyReplicas == len(pods)
 //@   ensures writesgrow: gWrites >= old(gWrites) && gPodTouch >= old(gPodTouch) && gCtlFails >= old(gCtlFails)
 //@   profile defaulted ensures [C12] bounds: err == nil ==> 0 <= statusp.ReadyReplicas && statusp.ReadyReplicas <= statusp.Replicas && 0 <= statusp.CurrentReplicas && statusp.CurrentReplicas <= statusp.Replicas && 0 <= statusp.UpdatedReplicas && statusp.UpdatedReplicas <= statusp.Replicas
@@ -469,7 +478,7 @@ package statefulset
 //@     invariant [C12] condemnedsrc: forall j int :: {condemned[j]} {csrc[j]} 0 <= j && j < len(condemned) ==> 0 <= csrc[j] && csrc[j] < i && condemned[j] == pods[csrc[j]]
 //@     invariant [C12] condemnedinc: forall a int, b int :: {csrc[a], csrc[b]} 0 <= a && a < b && b < len(condemned) ==> csrc[a] < csrc[b]
 //@   loop 2 "for ord := 0; ord < replicaCount"
-//@     invariant [C02] nonewq: calm ==> (forall o int :: {replicas[o]} 0 <= o && o < replicaCount && replicas[o] != nil ==> inSnap(replicas[o]))
+//@     invariant [C02] nonewq: calm || sti ==> (forall o int :: {replicas[o]} 0 <= o && o < replicaCount && replicas[o] != nil ==> inSnap(replicas[o]))
 //@     invariant 0 <= ord && ord <= replicaCount && len(replicas) == replicaCount
 //@     invariant alloc: forall o int :: {replicas[o]} 0 <= o && o < replicaCount ==> allocated(replicas[o])
 //@     invariant [C01,C02,C03,C04,C05,C07,C12,C14] placedord: forall o int :: {replicas[o]} 0 <= o && o < replicaCount && replicas[o] != nil ==> ordOf(replicas[o]) == o && (inSnap(replicas[o]) || isNewP(replicas[o]))
@@ -491,8 +500,8 @@ package statefulset
 //@     invariant counted: forall j int :: {condemned[j]} 0 <= j && j < i && !isHealthyS(condemned[j]) ==> unhealthy > 0
 //@   loop 5 "range replicas"
 //@     invariant [C02] stoprogress: sto ==> gNact >= 1 || i <= vacOrd(pods)
-//@     invariant [C02] quietsofar: calm ==> gNact == 0 && gPodTouch == old(gPodTouch) && gWrites == old(gWrites)
-//@     invariant [C02] nonewq: calm ==> (forall o int :: {replicas[o]} 0 <= o && o < replicaCount && replicas[o] != nil ==> inSnap(replicas[o]))
+//@     invariant [C02] quietsofar: calm || sti ==> gNact == 0 && gPodTouch == old(gPodTouch) && gWrites == old(gWrites)
+//@     invariant [C02] nonewq: calm || sti ==> (forall o int :: {replicas[o]} 0 <= o && o < replicaCount && replicas[o] != nil ==> inSnap(replicas[o]))
 //@     invariant len(replicas) == replicaCount && !gDeleting && gUpdDeletes == 0
 //@     invariant [C09] writes: gWrites >= old(gWrites) && gPodTouch >= old(gPodTouch) && gCtlFails == old(gCtlFails)
 //@     invariant alloc: forall o int :: {replicas[o]} 0 <= o && o < replicaCount ==> allocated(replicas[o])
@@ -525,6 +534,7 @@ package statefulset
 //@     invariant [C12] newcreated: forall o int :: {replicas[o]} 0 <= o && o < i && replicas[o] != nil && !inSnap(replicas[o]) ==> gCreated[o]
 //@     invariant [C14] burstcreated: !gMonotonic ==> (forall o int :: {gCreated[o]} 0 <= o && o < i && vacant(o) ==> gCreated[o])
 //@   loop 6 "for target := len(condemned) - 1; target >= 0"
+//@     invariant [C02] stiprogress: sti ==> len(condemned) >= 1 && (gNact >= 1 || target == len(condemned) - 1)
 //@     invariant [C02] stodone: sto ==> gNact >= 1
 //@     invariant [C02] quietsofar: calm ==> gNact == 0 && gPodTouch == old(gPodTouch) && gWrites == old(gWrites)
 //@     invariant 0 - 1 <= target && target < len(condemned) && !gDeleting && gUpdDeletes == 0
@@ -555,10 +565,11 @@ package statefulset
 //@   ghost var old7Updated int
 //@   at loopstart 7: ghost old7Replicas = status.Replicas; ghost old7Ready = status.ReadyReplicas; ghost old7Current = status.CurrentReplicas; ghost old7Updated = status.UpdatedReplicas
 //@   loop 7 "for target := len(replicas) - 1; target >= updateMin"
+//@     invariant [C02] stidone: sti ==> gNact >= 1
 //@     invariant [C02] stodone: sto ==> gNact >= 1
 //@     invariant [C02] quietsofar: fin ==> gNact == 0 && gPodTouch == old(gPodTouch) && gWrites == old(gWrites)
 //@     invariant [C02] stallwitness: stu ==> gNact == 0 && ordOf(pods[outdIdx(pods)]) <= target
-//@     invariant [C02] nonewq: calm ==> (forall o int :: {replicas[o]} 0 <= o && o < replicaCount && replicas[o] != nil ==> inSnap(replicas[o]))
+//@     invariant [C02] nonewq: calm || sti ==> (forall o int :: {replicas[o]} 0 <= o && o < replicaCount && replicas[o] != nil ==> inSnap(replicas[o]))
 //@     invariant target <= len(replicas) - 1 && gUpdDeletes == 0 && (gMonotonic ==> gNact == 0)
 //@     invariant [C12] statusfixed: status.Replicas == old7Replicas && status.ReadyReplicas == old7Ready && status.CurrentReplicas == old7Current && status.UpdatedReplicas == old7Updated
 //@     invariant [C07] higherupdated: forall o int :: {replicas[o]} {count(gS, 0, o)} target < o && o < len(replicas) && replicas[o] != nil ==> revOf(replicas[o]) == gUpdRev && isHealthyS(replicas[o])
